@@ -296,11 +296,11 @@ class Result:
         return exit_code
 
 
-def prepare(res, props_module, extra_targets=(), thorough=False, need_harness=True, need_driver=True):
+def prepare(res, props_module, extra_targets=(), thorough=False, need_harness=True, need_driver=True, extra_props=()):
     """Steps 1-4 of DESIGN §2.5: translator, lake build of the property's theorems (+driver), audit, harness build."""
     with BuildLock():
         ok_t = res.add(translator())
-        targets = [props_module] + list(extra_targets) + (["driver"] if need_driver else [])
+        targets = [props_module] + list(extra_props) + list(extra_targets) + (["driver"] if need_driver else [])
         ok_b = ok_t and res.add(lake_build(targets))
         if ok_b:
             res.add(forbidden_scan())
@@ -310,6 +310,12 @@ def prepare(res, props_module, extra_targets=(), thorough=False, need_harness=Tr
             res.add(o)
             res.axioms = by
             res.coverage["theorems"] = names
+            for extra in extra_props:   # further theorem files of the same property (audited the same way)
+                en = theorem_names(extra.replace(".", "/") + ".lean")
+                o2, by2 = audit_axioms(extra, en)
+                res.add(o2)
+                res.axioms.update(by2) if isinstance(res.axioms, dict) else None
+                res.coverage["theorems"] = res.coverage["theorems"] + en
             if thorough:
                 res.add(leanchecker([props_module]))
         elif ok_t:
